@@ -1,11 +1,14 @@
 package main
 
 import (
+	"bytes"
 	"encoding/json"
 	"flag"
 	"fmt"
 	"math/rand"
 	"os"
+
+	clipper "github.com/bolom009/go-clipper2"
 )
 
 func main() {
@@ -29,15 +32,21 @@ func main() {
 		fmt.Printf("EVENTS %d\n", w.n)
 	case "reexec":
 		fs := flag.NewFlagSet("reexec", flag.ExitOnError)
-		in := fs.String("in", "", "replay file (one event)")
+		in := fs.String("in", "", "replay file (one event per line)")
 		out := fs.String("out", "trace.ndjson", "output file")
+		cf := fs.String("cf", "", "counter-factual switch")
 		fs.Parse(os.Args[2:])
+		setCounterFactual(*cf)
 		b, err := os.ReadFile(*in)
 		if err != nil {
 			fatal(err)
 		}
 		w := newWriter(*out)
-		reexec(b, w)
+		for _, ln := range bytes.Split(b, []byte("\n")) {
+			if len(bytes.TrimSpace(ln)) > 0 {
+				reexec(ln, w)
+			}
+		}
 		w.close()
 		fmt.Printf("EVENTS %d\n", w.n)
 	case "shrink":
@@ -57,6 +66,16 @@ func drive(prop string, r *rand.Rand, w *writer, n int) {
 		driveBool(r, w, n, []string{"C01"})
 	case "C02":
 		driveBool(r, w, n, []string{"C02", "UNI"})
+	case "C14":
+		driveMeasure(r, w, n)
+	case "C15":
+		driveTrim(r, w, n)
+	case "C16":
+		driveSimplify(r, w, n)
+	case "C06":
+		driveRect(r, w, n)
+	case "C11":
+		driveRectLines(r, w, n)
 	default:
 		fatal("unknown driver", prop)
 	}
@@ -84,6 +103,38 @@ func reexec(b []byte, w *writer) {
 		e.Probes = mergeProbes(e.Probes, old)
 		e.Gexp = []int{}
 		w.emit(&e)
+	case "RectClip", "RectClipLines":
+		var e RectEv
+		if err := json.Unmarshal(b, &e); err != nil {
+			fatal(err)
+		}
+		old := e.Probes
+		execRect(r, &e)
+		e.Probes = mergeProbes(e.Probes, old)
+		w.emit(&e)
+	case "Measure":
+		var e MeasureEv
+		if err := json.Unmarshal(b, &e); err != nil {
+			fatal(err)
+		}
+		execMeasure(&e)
+		w.emit(&e)
+	case "Trim":
+		var e TrimEv
+		if err := json.Unmarshal(b, &e); err != nil {
+			fatal(err)
+		}
+		old := e.Probes
+		execTrim(r, &e)
+		e.Probes = mergeProbes(e.Probes, old)
+		w.emit(&e)
+	case "Simplify":
+		var e SimplifyEv
+		if err := json.Unmarshal(b, &e); err != nil {
+			fatal(err)
+		}
+		execSimplify(r, &e)
+		w.emit(&e)
 	default:
 		fatal("reexec: unknown event", head.Ev)
 	}
@@ -99,4 +150,28 @@ func mergeProbes(a, b []Pt) []Pt {
 		}
 	}
 	return out
+}
+
+// setCounterFactual switches exactly one listed defect off (verif build only); used to
+// attribute a rejected event to a known finding by call site.
+func setCounterFactual(cf string) {
+	switch cf {
+	case "":
+	case "exact-trisign":
+		clipper.VerifSetExactTriSign(true)
+	case "no-join":
+		clipper.VerifSetJoinMode(1)
+	case "strict-join":
+		clipper.VerifSetJoinMode(2)
+	case "no-fixself":
+		clipper.VerifSetSkipFixSelfIntersects(true)
+	case "no-join+no-fixself":
+		clipper.VerifSetJoinMode(1)
+		clipper.VerifSetSkipFixSelfIntersects(true)
+	case "strict-join+no-fixself":
+		clipper.VerifSetJoinMode(2)
+		clipper.VerifSetSkipFixSelfIntersects(true)
+	default:
+		fatal("unknown counter-factual", cf)
+	}
 }
